@@ -168,6 +168,12 @@ unit(M("c08_planner", functions=["second_chance::Update::new", "second_chance::U
 unit(M("c07_apply_glue", functions=["raw_cache::apply_update"], bounds="plans of up to 2+2 entries (bounded unrolling); callees uninterpreted"))
 unit(M("c07_prune_glue", functions=["raw_cache::prune"], bounds="all capacities; callees uninterpreted under their proven contracts"))
 
+unit(M("stack_gou_glue", functions=["stack::Cache::get_or_update", "stack::Cache::get_or_update::promote", "stack::Cache::get_or_update::{closure#0}", "stack::Cache::get_or_update::{closure#1}"],
+       bounds="every path of the MIR (no loops): every combination of write cache present/absent, checker present/absent, hit/miss per level, judge answer, "
+              "populate outcome, checker verdict, and success/failure of every callee, alone or together; callees uninterpreted"))
+unit(M("stack_finalize_glue", functions=["stack::finalize_tempfile", "stack::finalize_tempfile::close"],
+       bounds="every path of the MIR: syncing on/off, every callee succeeding or failing"))
+
 PROPS = {}
 
 
@@ -189,11 +195,11 @@ prop("C02", ["raw_insert_or_update_basic", "raw_insert_or_touch_basic", "c02_cle
      outside=["power-loss reordering of un-fsynced directory updates (documented: directories are not fsynced)",
               "validity is asserted at every call boundary of KFS, i.e. at every point where the process can die between two system calls"],
      assumptions=COMMON_ASSUME)
-prop("C03", ["raw_insert_or_update_basic", "raw_insert_or_touch_basic", "stackc_set_temp_w1r1", "stackc_set_temp_w1r1_fault", "stack_ops_sanity_twin"],
+prop("C03", ["stack_finalize_glue", "stack_gou_glue", "raw_insert_or_update_basic", "raw_insert_or_touch_basic", "stackc_set_temp_w1r1", "stackc_set_temp_w1r1_fault", "stack_ops_sanity_twin"],
      ["stackc_put_temp_w1r1", "stackc_put_temp_w1r1_fault", "stackc_set_w1r1", "stackc_set_w1r1_fault", "stackc_put_w1r1", "stackc_gou_w1r1_miss", "stackc_gou_w1r1_sec", "stackc_gou_w1r1_fault_miss", "stackc_gou_w1r1_fault_sec", "stackc_gou_w1r1_nosync_miss",
       "stack_set_temp_w1r1", "stack_set_temp_w1r1_fault", "stack_set_w1r1", "stack_put_temp_w2r0", "stack_gou_w2r1_miss"],
      outside=["whether the kernel's fsync is durable", "value sizes (content ids)"], assumptions=COMMON_ASSUME)
-prop("C04", ["plain_get_env", "plain_touch_env", "raw_insert_or_touch_basic", "raw_touch_basic", "raw_ops_sanity_twin"],
+prop("C04", ["stack_gou_glue", "plain_get_env", "plain_touch_env", "raw_insert_or_touch_basic", "raw_touch_basic", "raw_ops_sanity_twin"],
      ["plain_put_env", "plain_set_env", "plain_put_seq", "stackc_put_w1r1", "stackc_ensure_w1r0_putonly_miss", "stackc_ensure_w1r1_miss", "stack_put_w1r1", "stack_ensure_w1r0_putonly_miss"],
      outside=["linearizability is decided as a forward simulation per operation (linearization point = the publishing / opening call), not by enumerating histories"],
      assumptions=COMMON_ASSUME + [RELY])
@@ -230,11 +236,11 @@ prop("C12", ["c12_mapping", "c12_constants", "c12_new_clamps", "sharded_ops_sani
      ["c12_format_id", "sharded_get_01", "sharded_get_10", "sharded_touch_01", "sharded_set_absent", "sharded_set_in_secondary", "sharded_put_in_secondary"],
      outside=["directory names for shard indices >= 2^20", "probe order is checked with the two candidate ids fixed to (0,1) and (1,0)"],
      assumptions=COMMON_ASSUME + ["z3 and cvc5 agree (both consulted on every obligation)"])
-prop("C13", ["stack_get_w1r1_nock", "stack_touch_w1r2", "stack_set_w0r1", "stackc_set_w1r1", "stack_ops_sanity_twin"],
+prop("C13", ["stack_gou_glue", "stack_get_w1r1_nock", "stack_touch_w1r2", "stack_set_w0r1", "stackc_set_w1r1", "stack_ops_sanity_twin"],
      ["stackc_touch_w1r2", "stackc_get_w1r2_bytes", "stackc_put_w1r1", "stackc_set_temp_w1r1", "stackc_put_temp_w1r1", "stackc_ensure_w1r1", "stackc_ensure_w1r1_miss", "stackc_gou_w1r1", "stackc_gou_w1r1_miss", "stackc_gou_w1r1_sec", "stackc_gou_w1r1_pri", "stackc_gou_w1r1_env_sec", "stackc_gou_w1r1_env_miss",
       "stack_ensure_w1r1_miss", "stack_ensure_w1r1_sec", "stack_gou_w1r1_miss", "stack_gou_w1r1_sec", "stack_gou_w1r1_pri", "stack_gou_w0r1_sec", "stack_gou_w0r1_miss", "stack_gou_w2r1_miss", "stack_gou_w2r1_sec", "stack_set_w1r1", "stack_put_w1r1", "stack_set_temp_w1r1", "stack_put_temp_w2r0", "stack_put_temp_w0r1", "stack_get_w1r2_bytes", "stack_get_w0r2_bytes", "stack_get_w1r0_nock", "stack_get_w0r1_nock", "stack_gou_w1r1_env_sec", "readonly_builder_equiv"],
      outside=["stack shapes other than those listed (writer in {none, plain, sharded} x up to two plain readers)"], assumptions=COMMON_ASSUME)
-prop("C14", ["stack_get_w1r2_bytes", "stack_get_w1r1_nock", "stack_ops_sanity_twin"],
+prop("C14", ["stack_gou_glue", "stack_get_w1r2_bytes", "stack_get_w1r1_nock", "stack_ops_sanity_twin"],
      ["stackc_get_w1r2_bytes", "stackc_gou_w1r1_bytes", "stackc_gou_w1r1_bytes_sec", "stackc_gou_w1r1_bytes_pri_same", "stackc_gou_w1r1_bytes_pri_diff", "stackc_gou_w1r0_bytes_pri", "stackc_gou_w1r2_bytes", "stack_get_w0r2_bytes", "stack_gou_w1r1_bytes_sec", "stack_gou_w1r1_bytes_pri_same", "stack_gou_w1r1_bytes_pri_diff", "stack_gou_w1r0_bytes_pri", "stack_gou_w1r1_sec", "readonly_builder_equiv"],
      outside=["checkers other than none / byte equality (the panicking checker is the same comparison followed by expect())"], assumptions=COMMON_ASSUME)
 prop("C15", ["stack_get_w1r1_nock", "stack_touch_w1r2", "plain_get_seq", "stack_ops_sanity_twin"],
@@ -247,12 +253,12 @@ prop("C16", ["c16_validator", "c16_confinement", "plain_invalid_name_empty", "pl
 prop("C17", ["raw_prune_pieces_dotfile_only", "c02_cleanup_temp_by_age", "raw_collect_a_temp", "raw_ops_sanity_twin"],
      ["raw_prune_pieces_dotfile_and_a", "raw_collect_ab_sub", "raw_apply_update_evict_a_moveback_b"],
      outside=["nested directories below the cache directory (never listed: directories are skipped)"], assumptions=COMMON_ASSUME)
-prop("C18", ["plain_get_fault", "plain_touch_fault", "stackc_set_temp_w1r1_fault", "plain_ops_sanity_twin"],
+prop("C18", ["stack_gou_glue", "stack_finalize_glue", "plain_get_fault", "plain_touch_fault", "stackc_set_temp_w1r1_fault", "plain_ops_sanity_twin"],
      ["plain_set_fault", "plain_put_fault", "sharded_put_absent_fault", "stackc_set_w1r1_fault", "stackc_put_temp_w1r1_fault", "stackc_gou_w1r1_fault_miss", "stackc_gou_w1r1_fault_sec", "stackc_gou_w1r1_fault_pri", "stack_gou_w1r1_fault_miss", "stack_gou_w1r1_fault_sec", "stack_set_temp_w1r1_fault", "stack_set_w1r1_fault"],
      outside=["more than one failing call per operation", "failures inside the caller's populate function other than its own error return",
               "re-issuing the operation after the fault is covered by the fault-free harnesses starting from arbitrary valid states (C02)"],
      assumptions=COMMON_ASSUME)
-prop("C19", ["plain_get_seq", "stack_get_w1r1_nock", "raw_insert_or_update_basic", "stackc_set_temp_w1r1", "stack_ops_sanity_twin"],
+prop("C19", ["stack_gou_glue", "stack_finalize_glue", "plain_get_seq", "stack_get_w1r1_nock", "raw_insert_or_update_basic", "stackc_set_temp_w1r1", "stack_ops_sanity_twin"],
      ["stackc_put_temp_w1r1", "stackc_gou_w1r1_bytes", "stackc_gou_w1r1_bytes_sec", "stackc_gou_w1r1_bytes_pri_same", "stackc_gou_w1r1_miss", "stackc_gou_w1r1_sec", "stackc_gou_w1r1_pri",
       "stack_get_w1r2_bytes", "stack_gou_w1r1_sec", "stack_gou_w1r1_pri", "stack_gou_w1r1_bytes_sec", "stack_gou_w1r1_bytes_pri_same", "stack_set_temp_w1r1", "stack_put_temp_w2r0", "stack_gou_w0r1_miss", "stack_gou_w1r1_miss", "plain_set_seq", "sharded_get_01"],
      outside=["the no-writer miss path returns the throw-away temp file itself (read-write by construction): only its offset is checked"],
